@@ -3042,6 +3042,26 @@ func init() {
 	flag.BoolVar(&slpPrintTargets, "slp-print-targets", false, "print the list of translated functions (to refresh slp_targets.txt)")
 }
 
+// translated methods that read the prior value of a receiver they also write (see process)
+var receiverReads []string
+
+func emitReceiverReads() {
+	sort.Strings(receiverReads)
+	var b strings.Builder
+	b.WriteString("/- GENERATED by tools/goslp (slp.go). DO NOT EDIT. Translated methods (non-aliased pattern) whose body reads the prior value of\n   the receiver it writes: for every OTHER translated method the regenerated def has no receiver parameter, i.e. the result is a\n   function of the operands alone. Compared with the committed expectation by Props/C19_recv.lean. -/\nnamespace GV.Gen\ndef receiverReads : List String := [\n")
+	for i, r := range receiverReads {
+		sep := ","
+		if i == len(receiverReads)-1 {
+			sep = ""
+		}
+		fmt.Fprintf(&b, "  %q%s\n", r, sep)
+	}
+	b.WriteString("]\nend GV.Gen\n")
+	if err := os.WriteFile(filepath.Join(outDir, "ReceiverReads.lean"), []byte(b.String()), 0o644); err != nil {
+		die("%v", err)
+	}
+}
+
 func runSLP() {
 	type pkgSummary struct {
 		Translated   []string          `json:"translated"`
@@ -3083,6 +3103,11 @@ func runSLP() {
 			}
 			ps.Translated = append(ps.Translated, k)
 			all = append(all, label+" "+k)
+			// methods whose result depends on the PRIOR value of the receiver (non-aliased pattern): reported to Lean
+			// (Gen/ReceiverReads.lean) and compared there with the committed expectation (Props/C19_recv.lean)
+			if f.decl.Recv != nil && len(f.pos) > 0 && f.pos[0].ptr && !f.pos[0].spec && len(base.inUsed) > 0 && base.inUsed[0] && base.written[0] {
+				receiverReads = append(receiverReads, label+" "+k)
+			}
 			reduced := len(parts) > maxPatterns
 			if reduced {
 				ps.ReducedAlias = append(ps.ReducedAlias, k)
@@ -3176,6 +3201,7 @@ func runSLP() {
 	writeFile("Curve/summary.json", string(js)+"\n")
 	js, _ = json.MarshalIndent(pairingSummary, "", " ")
 	writeFile("Pairing/summary.json", string(js)+"\n")
+	emitReceiverReads()
 	un := map[string]map[string]string{}
 	for k, v := range summary {
 		un[k] = v.Untranslated
